@@ -71,11 +71,11 @@ def gen_template(rng, toks, length, profile="mixed", kind_hint=None):
             if name.lower().endswith(".ics"):
                 ct = rng.choice(["text/calendar", "text/calendar", "text/calendar; charset=utf-8", None])
                 pool = icals if rng.random() < 0.85 else bad_ical
-                if profile == "mixed" and rng.random() < 0.04:
-                    # content type and extension disagree.  No UID in these bodies: a calendar object
-                    # smuggled in as text/plain is later read by extension, two members then share a
-                    # UID and which of them the UID map names depends on os.listdir order (vdir)
-                    ct, pool = "text/plain", plains + [nouid]
+                if profile in ("mixed", "uid") and rng.random() < 0.08:
+                    # content type and extension disagree: the member is read back by its extension, so it
+                    # has to be validated and UID-checked as a calendar object whatever was declared
+                    ct = rng.choice(["text/plain", "application/octet-stream", "text/vcard"])
+                    pool = icals + icals + plains + [nouid]
             elif name.endswith(".vcf"):
                 ct = rng.choice(["text/vcard", None])
                 pool = cards if rng.random() < 0.8 else bad_card
